@@ -122,13 +122,15 @@ def gen(ctx, todo_cells):
         'ok-cap': open_msg(65002, 90, [(65, struct.pack('>I', 65001))]),
         'bad-cap': open_msg(65001, 90, [(65, struct.pack('>I', 65002))]),
         # a disallowed AS *and* an ADD-PATH capability that does not parse: the AS decides (Bad Peer AS), whatever else is wrong
+        # an ADD-PATH capability whose value is not a whole number of 4-octet entries (one entry and two stray octets)
+        'ap-len': open_msg(65001, 90, [(65, struct.pack('>I', 65001)), (69, struct.pack('>HBB', 1, 1, 3) + b'\x00\x02')]),
         'bad-aperr': open_msg(65002, 90, [(65, struct.pack('>I', 65002)), (69, struct.pack('>HBB', 1, 1, 3) + struct.pack('>HBB', 2, 1, 0))]),
     }
     cases = []
 
     def step_of(ev):
         if ev in ('BgpOpen', 'BgpOpenWithDelayOpenTimerRunning'):
-            k = rng.choice(['ok', 'ok', 'ok2', 'ok16', 'bad', 'ap-err', 'ok-cap', 'bad-cap', 'bad-aperr'])
+            k = rng.choice(['ok', 'ok', 'ok2', 'ok16', 'bad', 'ap-err', 'ap-len', 'ok-cap', 'bad-cap', 'bad-aperr'])
             return 'E:%s:%s' % (ev, opens[k].hex()), ev, k
         return 'e:' + ev, ev, None
     # 1. every history of length <= depth over all 21 events (from Idle), both DelayOpen settings
@@ -170,7 +172,7 @@ def gen(ctx, todo_cells):
                 if via == 't' and st == 'Connect':
                     continue      # no connection to read from
                 for delay in (0, 1):
-                    variants = ['ok', 'ok2', 'bad', 'ap-err', 'ok16', 'ok-cap', 'bad-cap', 'bad-aperr'] if mk == 'open' else ([None, 'n2.1', 'n2.2', 'n4.0', 'n6.4d'] if mk == 'notification' else [None])
+                    variants = ['ok', 'ok2', 'bad', 'ap-err', 'ap-len', 'ok16', 'ok-cap', 'bad-cap', 'bad-aperr'] if mk == 'open' else ([None, 'n2.1', 'n2.2', 'n4.0', 'n6.4d'] if mk == 'notification' else [None])
                     for ok in variants:
                         b = opens[ok] if mk == 'open' else (notifs[ok] if ok else msgs[mk])
                         out.append({'delay': delay, 'hold': rng.choice([90, 3, 0]), 'ap': '1.1,2.1', 'pre': pre,
@@ -295,8 +297,12 @@ def run(ctx):
                     break
                 open_ok = ok in ('ok', 'ok2', 'ok16', 'ok-cap')
                 want = rfc_next(st, evn, dot, bool(c['delay']), open_ok)
-                if ok == 'ap-err' and st in ('OpenSent', 'Connect', 'Active') and evn.startswith('BgpOpen') and (st == 'OpenSent') == (evn == 'BgpOpen'):
-                    # K6: no OPEN-message-error handling for an ADD-PATH capability that does not parse
+                if ok in ('ap-err', 'ap-len') and st in ('OpenSent', 'Connect', 'Active') and evn.startswith('BgpOpen') and (st == 'OpenSent') == (evn == 'BgpOpen'):
+                    # K6: no OPEN-message-error handling for an ADD-PATH capability that does not parse: the step fails and the
+                    # state stays (through tick: Connect) - accepting such an OPEN is not K6
+                    if new_st in ('OpenConfirm', 'Established'):
+                        viol('an OPEN whose ADD-PATH capability does not parse was accepted')
+                        break
                     if new_st != 'Idle':
                         stats['k6'] += 1
                         ctx.known_hit('K6', 'FSM %d: OPEN with an unparsable ADD-PATH capability in %s: state %s, out [%s]' % (i, st, new_st, out))
